@@ -1243,6 +1243,11 @@ class LinearOperator(object):
         from linear_operator.operators.root_linear_operator import RootLinearOperator
         from linear_operator.operators.triangular_linear_operator import TriangularLinearOperator
 
+        if not self.is_square:
+            raise RuntimeError(
+                "cat_rows only defined for square matrices: got a LinearOperator of size {}".format(self.shape)
+            )
+
         if not generate_roots and generate_inv_roots:
             warnings.warn(
                 "root_inv_decomposition is only generated when " "root_decomposition is generated.",
